@@ -192,3 +192,42 @@ class SilentPaymentsBounded:
         distinct = {r for r in recipients}
         ok = ok and all(o in claimed for o in outputs)
         return ok
+
+
+# ---------------------------------------------------------------- ECDH against SEC 1, both arms
+def _x963(z, size, hf, shared_info):
+    """SEC 1 v2 3.6.1 ANSI-X9.63-KDF"""
+    out = b""
+    counter = 1
+    while len(out) < size:
+        out += hf(z + counter.to_bytes(4, "big") + (shared_info or b"")).digest()
+        counter += 1
+    return out[:size]
+
+
+def _gen_dh(rng):
+    import hashlib
+    name = rng.choice(["secp256k1", "secp256k1", "secp256k1", "secp256r1", "secp160k1"])
+    ec = CURVES[name]
+    n = ec.n
+    d = rng.choice([1, 2, n - 1, rng.randrange(1, n)])
+    dU = rng.choice([d, d, d + n, d - n, d + 5 * n, -d, 0, n, 2 * n])
+    q = rng.randrange(1, n)
+    return dict(dU=dU, QV=mult(q, ec=ec), size=rng.choice([1, 16, 20, 32, 33, 64, 65, 100]), shared_info=rng.choice([None, b"", b"info"]), ec=ec,
+                hf=rng.choice([hashlib.sha256, hashlib.sha256, hashlib.sha512, hashlib.sha1]))
+
+
+@contract("btclib.ecc.dh.diffie_hellman", gen=_gen_dh, props="C04 C16", both_arms=True, n_quick=250, n_thorough=5000,
+          rule="scalars d, d±n, d+5n, -d, 0, n, 2n; three curves; sha256/sha512/sha1; sizes 1..100; with and without shared info")
+class DiffieHellmanBounded:
+    """SEC 1 6.1: ANSI-X9.63-KDF under the named hash over the x coordinate of (dU mod n)·QV;
+    the zero scalar is refused; the same answer on both arms"""
+
+    def raises_BTClibRuntimeError(dU, ec):
+        return dU % ec.n == 0
+
+    def post_sec1(dU, QV, size, shared_info, ec, hf, result):
+        from spec.ecdsa_ref import curve_of
+        R = curve_of(ec)
+        P = R.mul(dU % ec.n, (QV[0], QV[1]))
+        return result == _x963(P[0].to_bytes(ec.p_size, "big"), size, hf, shared_info)
